@@ -132,7 +132,7 @@ def floors(tier):
             'peek_token_does_not_move': 100000, 'next_token_advances': 100000,
             'rewind_checked': 100000, 'end_of_stream_reached': 20000,
             'char_level_calls_checked': 100000, 'resume_from_position_checked': 30000,
-            'token_list_reader_replays': 20000, 'strict_recovery_protocol_followed': 5000, 'end_of_stream_after_none_peek': 20000, 'rewind_without_pre_space_checked': 50000, 'histkeys:config': len(CONFIGS), 'hist:mode:tolerant': 10000, 'hist:mode:strict': 10000}
+            'token_list_reader_replays': 20000, 'token_list_reader_repeated_tokens': 20000, 'strict_recovery_protocol_followed': 5000, 'end_of_stream_after_none_peek': 20000, 'rewind_without_pre_space_checked': 50000, 'histkeys:config': len(CONFIGS), 'hist:mode:tolerant': 10000, 'hist:mode:strict': 10000}
 
 
 def setup(rec):
@@ -354,6 +354,30 @@ def second_pass(s, ps, tol, toks, rec, reached_eos=False):
             pass
         if lr.final_pos() != toks[-1].pos_end:
             return 'token-list reader: final_pos() %r, last token ends at %r' % (lr.final_pos(), toks[-1].pos_end)
+        # a list that holds equal tokens more than once (the same text tokenized twice and concatenated): reading with the
+        # generic protocol peek + move_past_token visits each list item once, in order, and ends
+        if len(toks) <= 12:
+            import copy
+            doubled = list(toks) + [copy.copy(t) for t in toks]
+            lr2 = LatexTokenListTokenReader(doubled)
+            for i, want in enumerate(doubled):
+                try:
+                    got = lr2.peek_token(ps)
+                except LatexWalkerEndOfStream:
+                    return 'token-list reader over a list with repeated (equal) tokens: end of stream after %d of %d reads' % (
+                        i, len(doubled))
+                if got is not want:
+                    return 'token-list reader over a list with repeated (equal) tokens: read %d returns list item %s, ' \
+                           'expected item %d (no progress / wrong successor)' % (
+                               i, [j for j, t in enumerate(doubled) if t is got], i)
+                lr2.move_past_token(got)
+            if lr2.peek_token_or_none(ps) is not None:
+                return 'token-list reader over a list with repeated (equal) tokens: tokens left after %d reads' % len(doubled)
+            if len(toks) >= 2:
+                lr2.move_to_token(doubled[len(toks) + 1])
+                if lr2.next_token(ps) is not doubled[len(toks) + 1]:
+                    return 'token-list reader: move_to_token() on the second copy of a token does not go there'
+            rec.monitor('token_list_reader_repeated_tokens')
     return None
 
 
